@@ -349,45 +349,65 @@ func (ex *Exec) lookupLocal(env *Env, name string) (Val, bool) {
 		}
 	}
 	refs := ex.dbg[name]
-	var best *dbgRef
 	at := hdr
 	if at == nil && ex.curBlk != nil {
 		at = ex.curBlk
 	}
+	// address-taken variables
 	for i := range refs {
 		r := &refs[i]
-		if r.isAddr {
-			// address-taken variable
-			if a, ok := r.v.(*ssa.Alloc); ok {
-				elem := a.Type().(*types.Pointer).Elem()
-				if ad, ok := ex.addrs[a]; ok {
-					return Val{ex.load(env.st, ad), GType{T: elem}}, true
-				}
-				if ref, ok := ex.vals[a]; ok {
-					if _, isSt := elem.Underlying().(*types.Struct); isSt {
-						return Val{S: ref, G: GType{T: elem, Loc: true}}, true
-					}
-					return Val{S: fmt.Sprintf("(select %s %s)", ex.compGet(env.st, ex.g.cellComp(elem)), ref), G: GType{T: elem}}, true
-				}
-			}
+		if !r.isAddr {
 			continue
 		}
-		if at != nil {
-			if !(r.blk.Dominates(at) && r.blk != at) && !(hdr == nil && r.blk == at) {
-				continue
+		if a, ok := r.v.(*ssa.Alloc); ok {
+			elem := a.Type().(*types.Pointer).Elem()
+			if ad, ok := ex.addrs[a]; ok {
+				return Val{ex.load(env.st, ad), GType{T: elem}}, true
 			}
-		}
-		if _, ok := ex.vals[r.v]; !ok {
-			if _, isConst := r.v.(*ssa.Const); !isConst {
-				continue
+			if ref, ok := ex.vals[a]; ok {
+				if _, isSt := elem.Underlying().(*types.Struct); isSt {
+					return Val{S: ref, G: GType{T: elem, Loc: true}}, true
+				}
+				return Val{S: fmt.Sprintf("(select %s %s)", ex.compGet(env.st, ex.g.cellComp(elem)), ref), G: GType{T: elem}}, true
 			}
-		}
-		if best == nil || best.blk.Dominates(r.blk) && (best.blk != r.blk || best.idx < r.idx) {
-			best = r
 		}
 	}
-	if best != nil {
-		return Val{ex.val(best.v), GType{T: best.v.Type()}}, true
+	// walk up the dominator tree: nearest phi named `name`, or latest debug reference
+	for b := at; b != nil; b = b.Idom() {
+		if b != hdr || hdr == nil {
+			// latest reference in this block
+			var best *dbgRef
+			for i := range refs {
+				r := &refs[i]
+				if r.isAddr || r.blk != b {
+					continue
+				}
+				if _, ok := ex.vals[r.v]; !ok {
+					if _, isConst := r.v.(*ssa.Const); !isConst {
+						continue
+					}
+				}
+				if best == nil || best.idx < r.idx {
+					best = r
+				}
+			}
+			if best != nil {
+				return Val{ex.val(best.v), GType{T: best.v.Type()}}, true
+			}
+		}
+		if b != hdr {
+			for _, in := range b.Instrs {
+				phi, ok := in.(*ssa.Phi)
+				if !ok {
+					break
+				}
+				if phi.Comment == name {
+					if v, ok := ex.vals[phi]; ok {
+						return Val{v, GType{T: phi.Type()}}, true
+					}
+				}
+			}
+		}
 	}
 	return Val{}, false
 }
@@ -684,6 +704,21 @@ func (ex *Exec) applyContract(st *State, con *Contract, sfn *ssa.Function, c *ss
 				if lv.ty != nil {
 					if rf := g.rangeFact(lv.ty, fv); rf != "" {
 						g.addFact(rf)
+					}
+				} else if ct, ok := g.compTy[lv.comp]; ok {
+					switch ct.kind {
+					case "A":
+						if rf := g.rangeFact(ct.t, fmt.Sprintf("(select %s i)", fv)); rf != "" {
+							g.addFact(fmt.Sprintf("(forall ((i Int)) (! %s :pattern ((select %s i))))", rf, fv))
+						}
+					case "MV":
+						if rf := g.rangeFact(ct.t, fmt.Sprintf("(select %s k)", fv)); rf != "" {
+							g.addFact(fmt.Sprintf("(forall ((k %s)) (! %s :pattern ((select %s k))))", g.sortOf(ct.key), rf, fv))
+						}
+					case "MH":
+						if rf := g.rangeFact(ct.key, "k"); rf != "" {
+							g.addFact(fmt.Sprintf("(forall ((k %s)) (! (=> (select %s k) %s) :pattern ((select %s k))))", g.sortOf(ct.key), fv, rf, fv))
+						}
 					}
 				}
 				g.set(st, lv.comp, fmt.Sprintf("(store %s %s %s)", cur, lv.base, fv))
